@@ -8,7 +8,8 @@
    has no counterpart in a model whose steps are atomic by construction) and real scheduling.
    Those are addressed only by the stress runs of the harness, which are tests. *)
 From Coq Require Import Permutation.
-From Verif Require Import Lib.Bytes Net.DnsCache Net.DnsCacheProofs Keys.FetchPool Keys.FetchPoolProofs.
+From Verif Require Import Lib.Bytes Net.DnsCache Net.DnsCacheProofs Keys.FetchPool Keys.FetchPoolProofs
+     Net.TransportCache Net.TransportCacheProofs.
 Open Scope Z_scope.
 
 Section DNS.
@@ -113,8 +114,48 @@ Proof. exact pool_progress. Qed.
 Theorem fetch_pool_terminates : forall fetch s s', pstep fetch s s' -> (unfinished s' < unfinished s)%nat.
 Proof. exact pool_terminates. Qed.
 
-(* ---------------- non-vacuity ---------------- *)
+(* ---------------- transport cache (destinationTripper.transports) ---------------- *)
 Open Scope Z_scope.
+
+(* getTransport stores lastUsed inside its critical section; therefore, in every reachable
+   state of every interleaving of getTransport calls and reaper passes, a reaper pass finds a
+   stored lastUsed in every entry it can see (its type assertion cannot panic) *)
+Theorem transport_reaper_never_panics : forall lifetime t0 s t,
+  treachable lifetime false t0 s ->
+  tpanicked s = false /\ reap_section lifetime t (tentries s) <> None.
+Proof. exact reaper_never_panics. Qed.
+
+(* every entry visible under the lock has a stored lastUsed, one entry per name, one name per
+   transport, lastUsed never ahead of the clock *)
+Theorem transport_entries_well_formed : forall lifetime t0 s,
+  treachable lifetime false t0 s ->
+  Forall stored (tentries s) /\ NoDup (tnames (tentries s)) /\ NoDup (map t_id (tentries s)).
+Proof.
+  intros lifetime t0 s H. apply tinv_reachable in H.
+  destruct H as [I1 I2 _ I4 _ _]. auto.
+Qed.
+
+Theorem transport_same_for_name : forall now n next es e,
+  tfind n es = Some e -> snd (get_section now n next es) = t_id e.
+Proof. exact same_transport_for_name. Qed.
+
+Theorem transport_new_is_fresh : forall lifetime t0 s now n,
+  treachable lifetime false t0 s -> tfind n (tentries s) = None ->
+  forall e, In e (tentries s) -> t_id e <> snd (get_section now n (tnext s) (tentries s)).
+Proof. exact new_transport_is_fresh. Qed.
+
+Theorem transport_recently_used_survives : forall lifetime now es es' e t,
+  reap_section lifetime now es = Some es' -> In e es -> t_last e = Some t -> now - t <= lifetime ->
+  In e es'.
+Proof. exact recently_used_survives. Qed.
+
+(* what the invariant rests on: were the entry published in one critical section and lastUsed
+   stored afterwards outside the lock, a reaper pass in between would panic *)
+Theorem transport_split_store_would_panic : forall lifetime,
+  exists s, treachable lifetime true 0 s /\ tpanicked s = true.
+Proof. exact split_variant_reaper_can_panic. Qed.
+
+(* ---------------- non-vacuity ---------------- *)
 (* two threads miss the same host, both resolve (different answers), both insert: reachable,
    and the second insertion replaces the first *)
 Example two_overlapping_lookups :
@@ -177,3 +218,9 @@ Print Assumptions fetch_keys_any_merge_order.
 Print Assumptions fetch_keys_results_disjoint.
 Print Assumptions fetch_pool_no_deadlock.
 Print Assumptions fetch_pool_terminates.
+Print Assumptions transport_reaper_never_panics.
+Print Assumptions transport_entries_well_formed.
+Print Assumptions transport_same_for_name.
+Print Assumptions transport_new_is_fresh.
+Print Assumptions transport_recently_used_survives.
+Print Assumptions transport_split_store_would_panic.
